@@ -270,6 +270,11 @@ func (ms *Modules) process() []error {
 	var mods []*Module
 	var errs []error
 
+	// Forget which modules had their includes and imports resolved by an
+	// earlier run: one that failed must fail again, and one that lacked a
+	// module loaded since then must now be linked.
+	ms.includes = map[*Module]bool{}
+
 	// Collect the list of modules we know about now so when we range
 	// below we don't pick up new modules.  We assume the user tells
 	// us explicitly which modules they are interested in.
